@@ -166,7 +166,20 @@ def pair_case(op, T, prec, isa, wxyz=False):
                 st, detail = approx_within_bound(t_p, t_s, approx, rs.elem * 8)
                 res.append(R.ob(oid, 'class_' + cls, st, detail, where=R.where_of(its, t_s) if st == R.REFUTED else None, kernel=ks.source() + '\n' + kp.source()))
                 continue
-            st, detail = compare_builds(t_p, t_s, cls, rs, pc)
+            if name in ('clamp', 'clamp_s') and t_p is not t_s:
+                # GLSL leaves clamp undefined for minVal > maxVal: the builds are compared on minVal <= maxVal only
+                def operand(i):
+                    ty = tp[i]
+                    off = ty.lanes[lane] if ty.kind != 'scalar' and lane in ty.lanes else 0
+                    return tm.inp('abc'[i], off * 8, ty.elem * 8)
+                lo_, hi_ = operand(1), operand(2)
+                g_ = tm.fcmp('ole', lo_, hi_) if rs.isfloat else tm.icmp('sle' if G.scalar(T).signed else 'ule', lo_, hi_)
+                if rs.isfloat:
+                    t_p, t_s = tm.select(g_, t_p, tm.zeros(t_p.w)), tm.select(g_, t_s, tm.zeros(t_s.w))
+                    g_ = None
+            else:
+                g_ = None
+            st, detail = compare_builds(t_p, t_s, cls, rs, pc, assume=g_)
             res.append(R.ob(oid, 'class_' + cls, st, detail, where=R.where_of(its, t_s) if st != R.PROVED else None, kernel=ks.source() + '\n' + kp.source()))
         return res
     return R.Case(cname, [kp, ks], judge)
@@ -269,7 +282,7 @@ def int_simplify(t):
     return memo[t]
 
 
-def compare_builds(t_p, t_s, cls, rty, pc):
+def compare_builds(t_p, t_s, cls, rty, pc, assume=None):
     if t_p is t_s:
         return R.PROVED, 'identical term in both builds'
     if not rty.isfloat and rty.T != 'bool':
@@ -300,9 +313,9 @@ def compare_builds(t_p, t_s, cls, rty, pc):
             return R.UNDECIDED, 'no integer normal form'
         if pp == ps:
             return R.PROVED, 'same polynomial mod 2^%d' % w
-        if L.lanes_only(pp - ps):
+        if L.lanes_only(pp - ps) and assume is None:
             return R.REFUTED, 'different integer polynomial: pure %s ; intrinsic %s' % (P.show_poly(pp), P.show_poly(ps))
-        r3 = O.int_equivalent(t_p, t_s)
+        r3 = O.int_equivalent(t_p, t_s, assume=assume)
         if r3 is True:
             return R.PROVED, 'same selection for every unsigned ordering of the operands and every sign-boundary position'
         if r3:
